@@ -490,7 +490,7 @@ package internals
 //@ iface DataProvider.Get(self, key)
 //@   requires self != nil
 //@   pure
-//@   ensures[C14] result == dpval(self, key)
+//@   names result == dpval(self, key)
 
 // A provider factory (zhttp.Request, zjson.Decode) consumes its source: it may be invoked at most once.
 //@ ghost dpinvoked(Fn) Bool
@@ -580,3 +580,8 @@ package internals
 //@   ensures[C20] false_means_no_member: !result ==> forall(i, 0, len(values), !deepeq(box(*val.(*T)), box(values[i])))
 //@   loop rangeindex.loop#1
 //@     invariant[C20] none_so_far: forall(j, 0, zz_i, !deepeq(box(*val.(*T)), box(values[j])))
+
+// ---- the remaining providers (C14): same key rule, value = what the source holds under that key.
+//@ func (*EmptyDataProvider).Get(e, key)
+//@   pure
+//@   ensures[C14,C15] every_field_absent: result == nil
